@@ -87,28 +87,58 @@ class Rnd:
         self.n = 0
         self.n_shuffle = 0
         self.max_perms = max_perms
+        self.log = []       # the draws made so far: (kind, size, outcome)
+        self.again = None   # draws to be served once more (frame obligations: a second call under the same draws)
 
     def _name(self, what):
         self.n += 1
         return "rnd_%s%d" % (what, self.n)
 
+    def replay(self):
+        """from now on the draws made so far are served again, in order, as long as the requests match them
+        (same kind, same number of options); after that, or on a mismatch, draws are fresh again"""
+        self.again = list(self.log)
+
+    def _served_again(self, kind, size):
+        if self.again:
+            k, n, out = self.again.pop(0)
+            if k == kind and n == size:
+                return out
+            self.again = None
+        return None
+
     def random(self):
+        got = self._served_again("random", 0)
+        if got is not None:
+            return got[0]
         if self.fixed:
             # a fixed low-discrepancy sequence (ties are broken one given way instead of every way)
             self.n += 1
-            return ((self.n * 7) % 16) / 16.0
-        x = self.env.real(self._name("random"), 0, 1)
-        self.env.assume(x < 1)
+            x = ((self.n * 7) % 16) / 16.0
+        else:
+            x = self.env.real(self._name("random"), 0, 1)
+            self.env.assume(x < 1)
+        self.log.append(("random", 0, (x,)))
         return x
 
     def choice(self, seq):
         seq = list(seq)
         if not seq:
             raise IndexError("Cannot choose from an empty sequence")
-        return self.env.choice(self._name("choice"), seq)
+        got = self._served_again("choice", len(seq))
+        if got is not None:
+            return seq[got[0]]
+        x = self.env.choice(self._name("choice"), seq)
+        self.log.append(("choice", len(seq), (seq.index(x),)))
+        return x
 
     def shuffle(self, lst):
         n = len(lst)
+        got = self._served_again("shuffle", n)
+        if got is not None:
+            self.n_shuffle += 1
+            lst[:] = [lst[i] for i in got[0]]
+            return
         perms = list(itertools.permutations(range(n)))
         if len(perms) > self.max_perms:
             # identity, reverse, rotations, then a fixed sample: a subset of the orders
@@ -123,6 +153,7 @@ class Rnd:
             perms = perms[:2] if len(perms) > 2 else perms
         self.n_shuffle += 1
         perm = self.env.choice(self._name("shuffle"), perms)
+        self.log.append(("shuffle", n, (perm,)))
         lst[:] = [lst[i] for i in perm]
 
 
@@ -311,7 +342,7 @@ def _obs_hints(hints, must_host, agent_names, comps):
 def _obs_callables(cg, memory, comm):
     """the answers of computation_memory / communication_load on every node / every (node, neighbour)"""
     nodes = list(cg.nodes)
-    return dict(memory=[memory(n) for n in nodes], load=[[comm(n, t) for t in n.neighbors] for n in nodes])
+    return dict(memory={n.name: memory(n) for n in nodes}, load={n.name: {t: comm(n, t) for t in n.neighbors} for n in nodes})
 
 
 class Frame:
@@ -322,6 +353,7 @@ class Frame:
         self.comps = [n.name for n in cg.nodes]
         self.args = (cg, agentsdef, agent_names, hints, must_host, memory, comm, tables)
         self.before = self.observe()
+        self.changed = set()
 
     def observe(self):
         cg, agentsdef, agent_names, hints, must_host, memory, comm, tables = self.args
@@ -337,9 +369,16 @@ class Frame:
                     callables="computation_memory-and-communication_load-answers", tables="footprint-capacity-cost-tables")
         ok = True
         for k, name in what.items():
+            if k in self.changed:
+                continue    # reported once on this path
             b, n = self.before[k], now[k]
-            ok &= bool(prove(self.env, "%s.frame.%s-unchanged[%s]" % (self.tag, name, when), _same(b, n),
-                             detail=lambda: dict(info(), before=b, after=n)))
+            same = _same(b, n)
+            label = "%s.frame.%s-unchanged[%s]" % (self.tag, name, when)
+            seen = any(f.label == label for f in self.env.ex.failures)   # prove() answers True for a label already witnessed in this job
+            held = prove(self.env, label, same, detail=lambda: dict(info(), before=b, after=n))
+            if same is False or not held or (seen and same is not True):
+                self.changed.add(k)
+                ok = False
         return ok
 
 
@@ -449,10 +488,13 @@ def h_heuristics(env):
     first = _mapping_of(r)
     results = [r]
     # the same graph / agents / hints serve a second distribution (pydcop solve after pydcop distribute, a batch over several
-    # methods, ...): the second call answers to the same obligations.  Symbolic exploration: only where the second call adds
-    # no decisions or the case asks for it (the draws of the second call are fresh inputs); native runs (sampling, replay): always
+    # methods, ...): the second call answers to the same obligations.  Symbolic exploration: where the case asks for it, and
+    # under the random draws of the first call (fresh draws would square the number of paths); native runs (sampling,
+    # replay of a witness): always, with fresh draws
     if (not env.symbolic) or meth == "oneagent" or p.get("again"):
         n_shuffle = rnd.n_shuffle
+        if env.symbolic:
+            rnd.replay()   # symbolic exploration: the second call under the draws of the first
         r2 = env.call(lambda: mod.distribute(cg, agentsdef, **kw))
         sit2 = [s_ for s_ in sit if s_ not in ("first-attempt", "after-a-retry")]
         if meth == "adhoc":
@@ -524,10 +566,10 @@ def _shapes_heur(tier, prop=None):
                                            c(meth, "pair", OG, 2, hosting="specific_positive", routes="sym")]))
         S.append(_group(meth + "-chain3", [c(meth, "chain3", HG, 2, hosting="positive", rnd="fixed")]))
     # the second call on the same inputs explored symbolically too (elsewhere: native runs only, see h_heuristics)
-    S.append(_group("second-call", [
-        c("adhoc", "pair", HG, 2, hints="must1", max_perms=2, again=True), c("adhoc", "pair", FG, 1, hints="secp", max_perms=2, again=True),
-        c("heur_comhost", "pair", HG, 2, hosting="positive", rnd="fixed", again=True),
-        c("gh_cgdp", "pair", HG, 2, hosting="specific", rnd="fixed", again=True)]))
+    S.append(_group("second-call-adhoc", [
+        c("adhoc", "pair", HG, 2, hints="must1", max_perms=2, again=True), c("adhoc", "pair", FG, 1, hints="secp", max_perms=2, again=True)]))
+    S.append(_group("second-call-heur_comhost", [c("heur_comhost", "pair", HG, 2, hosting="positive", rnd="fixed", again=True)]))
+    S.append(_group("second-call-gh_cgdp", [c("gh_cgdp", "pair", HG, 2, hosting="specific", rnd="fixed", again=True)]))
     if tier == "thorough":
         for meth in ("heur_comhost", "gh_cgdp"):
             S.append(_group(meth + "-chain3-any-tie-break", [c(meth, "chain3", HG, 2, hosting="positive")]))
@@ -719,15 +761,23 @@ def h_ilp(env):
     kw = dict(hints=hints, computation_memory=memory, communication_load=comm)
     if p.get("via") == "command-call":
         kw["timeout"] = 3600
-    cwd = os.getcwd()
-    tmp = tempfile.mkdtemp(prefix="pvc_dist_")
-    os.chdir(tmp)  # ilp_compref keeps its LP files in the working directory
-    try:
-        r = env.call(lambda: mod.distribute(cg, agentsdef, **kw))
-    finally:
-        os.chdir(cwd)
-        import shutil
-        shutil.rmtree(tmp, ignore_errors=True)
+
+    def run():
+        cwd = os.getcwd()
+        tmp = tempfile.mkdtemp(prefix="pvc_dist_")
+        os.chdir(tmp)  # ilp_compref keeps its LP files in the working directory
+        try:
+            return env.call(lambda: mod.distribute(cg, agentsdef, **kw))
+        finally:
+            os.chdir(cwd)
+            import shutil
+            shutil.rmtree(tmp, ignore_errors=True)
+
+    import copy
+    inst_before = copy.deepcopy(inst)   # plain numbers and strings
+    frame = Frame(env, "%s.%s" % (meth, prop), cg, agentsdef, names, hints, must_host, memory, comm, dict(footprints=fp, capacities=cap))
+    kw_before = dict(kw)
+    r = run()
     zero_possible = inst["hosting_kind"] in ("default0", "some_zero", "zero_clash")
     sit = [_hints_tag(p.get("hints", "none")), "zero-hosting-cost-present" if zero_possible else "all-hosting-costs>0"]
     if p["graph"] in ("pseudotree", "ordered_graph") or p["dcop"] == "dup":
@@ -735,17 +785,43 @@ def h_ilp(env):
     if p.get("via") == "command-call":
         sit.append("called-as-the-distribute-command-does")
     info = lambda: dict(method=meth, graph=p["graph"], dcop=p["dcop"], agents=names, hints=p.get("hints", "none"), instance=inst)  # noqa
+    # the second call on the same inputs costs a second MILP solve: every third instance (and the special ones)
+    again = (k % 3 == 0) or bool(p.get("special"))
     if prop == "C23":
         check_valid(env, meth, sit, r, cg, names, must_host, fp, cap, True, info)
+    else:
+        _check_optimal(env, mod, meth, sit[1:], r, cg, comps, names, agents, fp, cap, memory, comm, info)
+    # ---- frame: distribute() (and, for C24, distribution_cost()) read their inputs, they do not write into them
+    F = lambda what: "%s.%s.frame.%s" % (meth, prop, what)  # noqa
+    prove(env, F("keyword-arguments-unchanged"), _same(kw_before, kw), detail=lambda: (info(), kw_before, kw))
+    prove(env, F("instance-tables-unchanged"), inst == inst_before, detail=lambda: dict(before=inst_before, after=inst))
+    if not frame.check("after-the-call", info):
         return
-    # ---------------- C24: brute-force optimum under the method's own hard rules and cost
+    first_map = _mapping_of(r)
+    results = [r]
+    if again:
+        r2 = run()
+        if prop == "C23":
+            check_valid(env, meth, sit + [SECOND], r2, cg, names, must_host, fp, cap, True, info, first=first_map)
+        else:
+            _check_optimal(env, mod, meth, sit[1:] + [SECOND], r2, cg, comps, names, agents, fp, cap, memory, comm, info)
+        prove(env, F("first-result-unchanged-by-the-second-call"), _same(first_map, _mapping_of(r)), detail=lambda: (info(), first_map, _mapping_of(r)))
+        prove(env, F("instance-tables-unchanged"), inst == inst_before, detail=lambda: dict(before=inst_before, after=inst))
+        frame.check("after-" + SECOND, info)
+        results.append(r2)
+    scribble_on(results)
+    frame.check("after-editing-the-result", info)
+
+
+def _check_optimal(env, mod, meth, sit24, r, cg, comps, names, agents, fp, cap, memory, comm, info):
+    """C24: brute-force optimum under the method's own hard rules and cost"""
+    from pydcop.distribution.objects import Distribution
     valid = valid_distributions(meth, comps, names, agents, fp, cap)
 
     def cost_of(m):
         d = Distribution({a: [c for c in comps if m[c] == a] for a in names})
         return mod.distribution_cost(d, cg, agents, memory, comm)[0]
 
-    sit24 = sit[1:]
     L = lambda what, extra=None: "%s.C24.%s[%s]" % (meth, what, ",".join(([extra] if extra else []) + sit24))  # noqa
     if isinstance(r, Raised):
         env.cover("declared-impossible")
@@ -765,11 +841,18 @@ def h_ilp(env):
               detail=lambda: dict(info(), returned=r.mapping(), n_valid=len(valid)))
     if not valid or len(got) != len(comps):
         return
+    returned = _mapping_of(r)
     c_got = mod.distribution_cost(r, cg, agents, memory, comm)[0]
+    # frame: costing a distribution does not change it (the cost of the same distribution, asked again, is the same)
+    prove(env, "%s.C24.frame.distribution_cost-leaves-the-distribution-unchanged" % meth, _same(returned, _mapping_of(r)),
+          detail=lambda: dict(info(), before=returned, after=_mapping_of(r)))
     best = min(valid, key=cost_of)
     c_best = cost_of(best)
     prove(env, L("cost-is-minimal-among-valid-distributions"), c_got <= c_best + 1e-9,
               detail=lambda: dict(info(), returned=r.mapping(), cost=c_got, cheaper=best, cheaper_cost=c_best))
+    c_again = mod.distribution_cost(r, cg, agents, memory, comm)[0]
+    prove(env, "%s.C24.frame.distribution_cost-of-the-same-distribution-is-the-same-when-asked-again" % meth,
+          abs(c_again - c_got) <= 1e-9, detail=lambda: dict(info(), returned=r.mapping(), cost=c_got, cost_again=c_again))
 
 
 _STYLES = {
@@ -977,9 +1060,18 @@ def h_command(env):
             os.chdir(cwd)
         return "returned-without-exit"
 
+    # frame: what the command is handed is the argparse namespace and the yaml file(s) it names.  (No second run here:
+    # the command line runs once per process, and every path of a job already runs in the same process as the previous ones.)
+    args_before = {kk: (list(vv) if isinstance(vv, list) else vv) for kk, vv in vars(args).items()}
     r = env.call(run)
+    args_after = {kk: (list(vv) if isinstance(vv, list) else vv) for kk, vv in vars(args).items()}
+    with open(path) as f:
+        text_after = f.read()
     import shutil
     shutil.rmtree(tmp, ignore_errors=True)
+    prove(env, "command.C23.frame.arguments-namespace-unchanged[%s]" % meth, args_after == args_before,
+          detail=lambda: dict(before=args_before, after=args_after))
+    prove(env, "command.C23.frame.dcop-file-unchanged[%s]" % meth, text_after == text, detail=lambda: dict(before=text, after=text_after))
     zero_possible = inst["hosting_kind"] in ("default0", "some_zero", "zero_clash")
     sit = [meth, "must-host-hints" if must_host else "no-hints"]
     if meth in ("gh_cgdp", "ilp_fgdp", "oilp_cgdp"):
@@ -1147,10 +1239,28 @@ def h_secp(env):
     kw = dict(hints=None, computation_memory=memory, communication_load=comm)
     if p.get("via") == "command-call":
         kw["timeout"] = 3600
+    frame = Frame(env, meth + ".C23", cg, agents, names, None, {}, memory, comm, dict(footprints=fp, capacities=cap))
+    kw_before = dict(kw)
     r = env.call(lambda: mod.distribute(cg, agents, **kw))
     sit = ["secp-shaped-dcop"] + (["called-as-the-distribute-command-does"] if p.get("via") == "command-call" else [])
     info = lambda: dict(method=meth, secp=p["secp"], graph=graph, footprints=fp, capacities=cap, capkind=capkind)  # noqa
     check_valid(env, meth, sit, r, cg, names, {}, fp, cap, True, info)
+    # ---- frame: the inputs are read, not written; the same inputs serve a second call (every third instance for the
+    # MILP methods, a second solve; every instance for the greedy ones)
+    prove(env, "%s.C23.frame.keyword-arguments-unchanged" % meth, _same(kw_before, kw), detail=lambda: (info(), kw_before, kw))
+    if not frame.check("after-the-call", info):
+        return
+    first_map = _mapping_of(r)
+    results = [r]
+    if k % 3 == 0 or not meth.startswith("oilp"):
+        r2 = env.call(lambda: mod.distribute(cg, agents, **kw))
+        check_valid(env, meth, sit + [SECOND], r2, cg, names, {}, fp, cap, True, info, first=first_map)
+        prove(env, "%s.C23.frame.first-result-unchanged-by-the-second-call" % meth, _same(first_map, _mapping_of(r)),
+              detail=lambda: (info(), first_map, _mapping_of(r)))
+        frame.check("after-" + SECOND, info)
+        results.append(r2)
+    scribble_on(results)
+    frame.check("after-editing-the-result", info)
 
 
 def _shapes_secp(tier, prop=None):
